@@ -198,8 +198,10 @@ pub fn gen_case(rng: &mut Rng) -> CtxCase {
         2 => rng.range(13, 60),
         _ => rng.range(61, 400),
     };
+    // the interpreter is ~4 orders of magnitude slower: keep inputs tiny
+    let n = if cfg!(miri) { n.min(8) } else { n };
     let mask = gen_mask(rng, n, cfg.after, cfg.before);
-    let long_lines = rng.chance(1, 6);
+    let long_lines = rng.chance(1, 6) && !cfg!(miri);
     let input = gen_input(rng, cfg.term, &mask, long_lines);
     CtxCase {
         pattern: rng.pick(PATTERNS).to_string(),
